@@ -21,7 +21,8 @@ EXPLANATION = (
     'SQL that reach run_sql(execute=True) during Evolver.evolve (evolution '
     'SQL, new-model SQL, deferred SQL, purge SQL) are the kinds the preview '
     'feeds to run_sql(capture=True), and both evolution-SQL sites take it '
-    'from generate_mutations_info(...)[\'sql\'].')
+    'from generate_mutations_info(...)[\'sql\']; '
+    'R-C14.2 also: the capture path\'s condition on params agrees with what cursor.execute does (or _prepare_sql normalises () to None); R-C14.4 preview and execution read the same SQL variable (known finding: task.sql vs batches).')
 NOT_DECIDED = (
     'Statement-by-statement equality of preview and execution for every '
     'upgrade, and byte-identical output across hash seeds (needs execution '
